@@ -20,6 +20,6 @@ def power_law(alpha: float) -> callable:
     C = zeta(alpha)
 
     def p(k: int) -> float:
-        return pow(k, -alpha) / C
+        return pow(k + 0.0, -alpha) / C
 
     return p
